@@ -59,7 +59,7 @@ def run(ctx):
     seen = cl.report_failures(ctx, binary, s)
     evaluations = (s["lib_checks"] + s["sweep_len3"] + s["perturbations"] + s["random_strings"] + s["split_checks"] +
                    s["frames_verified"] + s["hdr_field_sweep"] + s["echo_payload_sweep"] + s["concurrent_headers"] +
-                   s["concurrent_frames"] + s["directed_sends"] + s["long_inputs"] + s["long_split_checks"])
+                   s["concurrent_frames"] + s["directed_sends"] + s["long_inputs"] + s["long_split_checks"] + 2 * s["wide_fold_solved_inputs"])
     cov = ctx.coverage
     cov.update({
         "tlc": {cfg: r.summary()},
@@ -86,6 +86,7 @@ def run(ctx):
         "directed_critical_totals_reached": s["directed_targets_reached"],
         "directed_by_icmp6_length": s["directed_by_icmp6_length"],
         "full_16bit_sweeps": s["full_16bit_sweeps"],
+        "wide_fold_solved_inputs": s["wide_fold_solved_inputs"],
         "long_tlc_vectors": s["long_tlc_vectors"],
         "long_inputs_65534_and_more_bytes": s["long_inputs"],
         "long_inputs_with_accumulator_overflow": s["long_inputs_with_accumulator_overflow"],
@@ -95,6 +96,9 @@ def run(ctx):
         "emitted_frames_verified": s["frames_verified"],
         "emitted_frames_by_function": s["frames_by_fn"],
         "send_refused": s.get("send_refused", {}),
+        "sends_failed_after_injected_write_error": s.get("sends_failed_after_injected_write_error", {}),
+        "sends_succeeded_after_injected_write_error": s.get("sends_succeeded_after_injected_write_error", {}),
+        "frames_transmitted_after_injected_write_error": s.get("frames_transmitted_after_injected_write_error", 0),
         "evaluations": evaluations,
         "distinct_nontrivial": s["distinct_inputs"],
         "rule": "one evaluation = one execution of library code (Checksum / CalculateChecksum / SetChecksum / SetPayload / "
